@@ -1,6 +1,7 @@
 package main
 
 import (
+	"go/constant"
 	"go/token"
 	"go/types"
 
@@ -337,4 +338,196 @@ func readErrorLeavesLoopIdiom(rd ssa.CallInstruction) (bool, string) {
 		return false, "error result never tested"
 	}
 	return true, "error edge leaves the loop (timeout-and-temporary retry and latched-error idioms accepted)"
+}
+
+// ---- packet read loops -------------------------------------------------------
+
+// timeoutOnly: h(err) bool answers true only under X.Timeout()==true (the retry
+// classifier of a read loop). Constant false returns are fine; any other possibly
+// true return must be dominated by a positive Timeout() fact.
+func timeoutOnly(h *ssa.Function) bool {
+	if h == nil || len(h.Blocks) == 0 || h.Signature.Results().Len() != 1 {
+		return false
+	}
+	for _, ret := range Returns(h) {
+		v := stripValue(RetVal(ret, 0))
+		if k, ok := v.(*ssa.Const); ok && k.Value != nil && !constant.BoolVal(k.Value) {
+			continue
+		}
+		under := false
+		for _, ft := range Facts(ret.Block()) {
+			if c, ok := stripValue(ft.Cond).(*ssa.Call); ok && CalleeOf(c).Name == "Timeout" && ft.Pol {
+				under = true
+			}
+		}
+		if !under {
+			return false
+		}
+	}
+	return true
+}
+
+// errEdgeFilter builds the edge filter used when following the failed edge of a read: it
+// keeps, for tests of the (latched) error, only the non-nil successor, and prunes the accepted
+// retry edges: Timeout()&&Temporary(), or a bool helper h(err) with timeoutOnly(h).
+func errEdgeFilter(isErr func(ssa.Value) bool) func(b *ssa.BasicBlock, succ int) bool {
+	return func(b *ssa.BasicBlock, succ int) bool {
+		last, ok := b.Instrs[len(b.Instrs)-1].(*ssa.If)
+		if !ok {
+			return true
+		}
+		c, pol := normCond(last.Cond, true)
+		trueSucc := 0
+		if !pol {
+			trueSucc = 1
+		}
+		if x, tmn, ok := NilTest(c); ok && isErr(x) {
+			nonNilSucc := 0
+			if tmn == pol {
+				nonNilSucc = 1
+			}
+			return succ == nonNilSucc
+		}
+		if call, ok := stripValue(c).(*ssa.Call); ok {
+			if CalleeOf(call).Name == "Temporary" {
+				for _, ft := range Facts(b) {
+					if c2, ok := stripValue(ft.Cond).(*ssa.Call); ok && CalleeOf(c2).Name == "Timeout" && ft.Pol && succ == trueSucc {
+						return false
+					}
+				}
+			}
+			if h := call.Common().StaticCallee(); h != nil && timeoutOnly(h) && succ == trueSucc {
+				for _, a := range call.Common().Args {
+					if isErr(stripValue(a)) {
+						return false
+					}
+				}
+			}
+		}
+		return true
+	}
+}
+
+// CheckPacketReadLoop decides, for a call rd whose result errIdx is the read error, that a
+// failed read cannot lead back to the same read except through an accepted timeout retry.
+// rd may sit in the loop itself, or in a wrapper that reports the outcome through constant
+// bool results which the caller's loop tests (depth 1).
+func CheckPacketReadLoop(p *Prog, rd ssa.CallInstruction, errIdx int) (bool, string) {
+	errv := extractOf(rd, errIdx)
+	if errv == nil {
+		return false, "error result discarded"
+	}
+	isErr := func(v ssa.Value) bool {
+		if v == errv {
+			return true
+		}
+		if ph, ok := v.(*ssa.Phi); ok {
+			for _, e := range ph.Edges {
+				if e == errv {
+					return true
+				}
+			}
+		}
+		return false
+	}
+	f := rd.Parent()
+	// failed-edge start blocks
+	var starts []*ssa.BasicBlock
+	if errv.Referrers() != nil {
+		for _, ref := range *errv.Referrers() {
+			bo, ok := ref.(*ssa.BinOp)
+			if !ok || bo.Referrers() == nil {
+				continue
+			}
+			x, tmn, ok := NilTest(bo)
+			if !ok || x != errv {
+				continue
+			}
+			for _, u := range *bo.Referrers() {
+				if iff, ok := u.(*ssa.If); ok {
+					es := iff.Block().Succs[0]
+					if tmn {
+						es = iff.Block().Succs[1]
+					}
+					starts = append(starts, es)
+				}
+			}
+		}
+	}
+	if len(starts) == 0 {
+		return false, "error result never tested"
+	}
+	filter := errEdgeFilter(isErr)
+	var retsOnErr []*ssa.Return
+	for _, s := range starts {
+		hits := WalkFrom(s, nil, func(in ssa.Instruction) int {
+			if in == rd.(ssa.Instruction) {
+				return Hit
+			}
+			if ret, ok := in.(*ssa.Return); ok {
+				retsOnErr = append(retsOnErr, ret)
+				return Stop
+			}
+			return Cont
+		}, filter)
+		if len(hits) > 0 {
+			return false, "a failed read can reach the same read again without being a timeout (spin on a dead stream)"
+		}
+	}
+	if InLoop(rd.Block()) {
+		return true, "failed read leaves the loop (timeout retry accepted)"
+	}
+	// wrapper: every non-timeout error return must drive each calling loop out
+	callers := 0
+	for _, g := range p.Funcs {
+		var bad string
+		Instrs(g, func(in ssa.Instruction) {
+			ci, ok := in.(ssa.CallInstruction)
+			if !ok || ci.Common().StaticCallee() != f || !InLoop(ci.Block()) {
+				return
+			}
+			callers++
+			for _, ret := range retsOnErr {
+				// constant results of this return
+				consts := map[int]bool{}
+				for i := range ret.Results {
+					if k, ok := stripValue(RetVal(ret, i)).(*ssa.Const); ok && k.Value != nil && k.Value.Kind() == constant.Bool {
+						consts[i] = constant.BoolVal(k.Value)
+					}
+				}
+				hits := WalkFrom(nil, ci.(ssa.Instruction), func(x ssa.Instruction) int {
+					if x == ci.(ssa.Instruction) {
+						return Hit
+					}
+					return Cont
+				}, func(b *ssa.BasicBlock, succ int) bool {
+					last, ok := b.Instrs[len(b.Instrs)-1].(*ssa.If)
+					if !ok {
+						return true
+					}
+					c, pol := normCond(last.Cond, true)
+					if ex, ok := stripValue(c).(*ssa.Extract); ok && ex.Tuple == ci.(ssa.Value) {
+						if val, known := consts[ex.Index]; known {
+							want := 0
+							if val != pol {
+								want = 1
+							}
+							return succ == want
+						}
+					}
+					return true
+				})
+				if len(hits) > 0 {
+					bad = "a non-timeout read error returned by " + f.Name() + " lets the calling loop read again"
+				}
+			}
+		})
+		if bad != "" {
+			return false, bad
+		}
+	}
+	if callers == 0 {
+		return true, "read outside any loop"
+	}
+	return true, "failed read makes the wrapper report an exit that the calling loop obeys (timeout retry accepted)"
 }
